@@ -61,7 +61,7 @@ fn main() {
                 .and_then(|s| s.parse().ok())
                 .unwrap_or(16);
             let runs = opt("--runs").and_then(|s| s.parse().ok());
-            let o = RunOpts { root, tier_thorough: tier == "thorough", seed, threads, runs_override: runs, quiet: flag("--quiet") };
+            let o = RunOpts { root, tier_thorough: tier == "thorough", seed, threads, runs_override: runs, quiet: flag("--quiet"), control_out: opt("--control-out"), control_in: opt("--control-in") };
             std::process::exit(engine::run_check(def, &o));
         }
         "replay" => {
